@@ -28,7 +28,7 @@ TRUSTED = ["Python object identity, hashing and set iteration order are NOT mode
 ASSUMPTIONS = ["inner property modules build their graphs through graphs.to_*(g, case) so that _lab/_order take effect"]
 LEVEL_TEXT = ("Unbounded Coq theorems: the separation spec (and its executable oracle) commutes with every one-to-one renaming and depends on node/edge lists only as sets "
               "(spec_equivariant_msep, spec_order_free_msep, oracle_*), and so does the executable model of m_separated on C01's whole domain (model_equivariant_msep, a corollary of C01's unbounded correctness theorem). "
-              "The same pair of unbounded theorems is proved for the Prop-level spec of EVERY algorithm (166 theorems spec_equivariant_<cNN>_<pred> / spec_order_free_<cNN>_<pred> in Props/C15.v; "
+              "The same pair of unbounded theorems is proved for the Prop-level spec of EVERY algorithm (167 theorems spec_equivariant_<cNN>_<pred> / spec_order_free_<cNN>_<pred> / model_* in Props/C15.v; "
               "`rmap f` = one-to-one renaming of all nodes, `gequiv` = same node set and same edge relations, i.e. list order and duplicates ignored; proofs in Graph/RenameMore.v and C15/Equiv_*.v): "
               "C12 collider_path / collider_connected / in_domain / criterion; C10 is_admg, canon_structure (the renamed canonical DAG meets the structure clause of the renamed input for accordingly chosen latent names) ; "
               "C04/C05 Padj, Vstr, acyclic, is_dag, meq, essential, wf_pdag, consistent_ext and the existence of a consistent extension; C06 inducing_path (path- and existence-level), is_dag, dsep, the right-hand sides of the MAG adjacency/independence clauses; "
@@ -36,11 +36,11 @@ LEVEL_TEXT = ("Unbounded Coq theorems: the separation spec (and its executable o
               "C16 semi_edge, semi_path, semi_target_path, no_lone_circle, semi-directed reachability; C17 pds_def_path, pds_def_walk, walk_ok, connected, guard_ok, on_block, pds_def_asis; "
               "C18 pd_edge_def, updp_shape, updp_def, disc_def (any / strict parent test), their existence forms, par_of; C19 same_scc, sigma_conn, sigma_sep, acy_edges_of. "
               "Model-level corollaries model_equivariant_* / model_order_free_* (the executable model of the renamed / reordered input equals the renamed / same output), all unbounded: "
-              "C12 moral_adj (=), moral_graph (commutes up to list order), moral_sep (=), moral_adjacency; C10 canon_sep (separations of the canonical DAG, any admissible latent names), canon_model (commutes up to list order); "
+              "C12 moral_adj (=, both), moral_graph (commutes up to list order, both), moral_sep (=, both), moral_adjacency; C10 canon_sep (separations of the canonical DAG, any admissible latent names), canon_model (commutes up to list order); "
               "C05 pdag_none / pdag_some (pdag_to_dag succeeds on the renamed/reordered PDAG iff it succeeds on the original, and its output is the renaming of a consistent extension); "
               "C06 inducing_model (= with the witness renamed), dag_to_mag (= rmap f of the result); C07 is_maximal, has_adc, valid_mag (=); C16 is_semi, semi_enum (path membership), poss_desc / poss_anc (= map f); "
               "C17 conn, pds_model; C18 updp_paths, disc_paths, spec_updp_dec, spec_disc_dec; C19 acy_model (commutes up to list order). "
-              "Not stated: order-freedom of dag_to_mag_model and of moral_sep (their edge lists are built in list order), the boolean oracles of C08/C09 completeness. "
+              "Not stated: order-freedom of dag_to_mag_model (its edge list is built in list order; needs symmetry of the inducing-path test), the boolean oracles of C08/C09 completeness. "
               "For the implementation the property is decided by metamorphic correspondence: every sampled case of C01, C04-C12, C16-C19 "
               "is re-run under 6 label families x insertion orders x hash seeds and must still agree with the proved model of that property.")
 LEVEL_NOTE = ("CPython identity/interning/hash order cannot be expressed in Gallina; C15 is therefore a correspondence claim over sampled label families, not a theorem about the code. "
